@@ -200,3 +200,9 @@ def run(ctx, progs):
         r5_pool_wide(ctx, P)
     ctx.config = None
     ctx.need(any_std, "C19.R1", "a fact base with the std feature (BumpPool)")
+    # the lifetime / thread-safety clauses: rustc decides them on the pool part of the witness corpus
+    from . import c04
+    try:
+        c04.run_pool_subset(ctx, ctx.tier, R="C19.W")
+    except c04.HarnessBroken as e:
+        raise RuntimeError(str(e))
